@@ -5,7 +5,7 @@ CONSTANTS
   FixStale = TRUE
   MaxSets = 9
   MaxOps = 16
-  MaxFails = 1
+  MaxFails = 3
   MaxFaults = 4
   UseKeys = {"k1", "k2", "k3"}
   UseClients = {"c1", "c2"}
